@@ -184,6 +184,20 @@ def case_year(mon, y):
                                    "previous": prev_year_val},
                           lambda: key_year(y, m, d, yv))
             prev_year_val = yv
+        # ... strictly, also over a millisecond (25 floats of the JDE at the
+        # present era; the year with decimals still resolves 7 microseconds)
+        if d in (1, 15) or m == 12:
+            try:
+                ja = j0 + 0.3183 + 0.001 * d
+                ya, yb = Epoch(ja).year(), Epoch(ja + 1.2e-8).year()
+                mon.check("year.strictly-increasing", yb > ya,
+                          lambda: {"jde": ja, "year()": ya,
+                                   "one_millisecond_later": yb},
+                          lambda: key_year(y, m, d, ya))
+            except Exception as ex:
+                mon.dev("year.strictly-increasing",
+                        {"date": [y, m, d], "raised": repr(ex)},
+                        key_year(y, m, d, None))
     # across the year boundary
     if y < 6000 and prev_year_val is not None:
         try:
